@@ -123,7 +123,20 @@ Proof.
 Qed.
 
 Lemma join2_empty b : good_path b -> join2 [] b = b.
-Proof. intros Hb. unfold join2. cbn [is_nil]. now apply clean_good. Qed.
+Proof.
+  intros Hb. unfold join2. destruct (good_path_shape b Hb) as (c & r & -> & _).
+  cbn [is_nil]. now apply clean_good.
+Qed.
+
+(* Walk reports cdir/rel and DirFiles cuts cdir/ off again, for every cleaned directory
+   argument except the root "/" *)
+Lemma dir_rel_walk cdir rel : cdir <> [47] -> dir_rel cdir (walk_file cdir rel) = rel.
+Proof.
+  intros Hroot. unfold dir_rel, walk_file.
+  destruct (str_eqb_spec cdir dot) as [_|_]; [reflexivity|].
+  destruct (str_eqb_spec cdir [47]) as [E|_]; [contradiction|].
+  clear. induction cdir as [|c cdir IH]; [reflexivity | exact IH].
+Qed.
 
 Lemma resolve_slash_good b : good_path b -> resolve (47 :: b) = Some b.
 Proof.
@@ -199,44 +212,50 @@ Qed.
 
 (* ---------------------------------------------------------------- DirFiles, HashDir *)
 
-Theorem dir_files_naming (t : tree) prefix :
+Theorem dir_files_naming dir (t : tree) prefix :
+  clean dir <> [47] ->
   good_path prefix -> (forall e, In e t -> good_path (fst e)) ->
-  dir_files t prefix = map (fun e => prefix ++ 47 :: fst e) t.
+  dir_files dir t prefix = map (fun e => prefix ++ 47 :: fst e) t.
 Proof.
-  intros Hp Ht. unfold dir_files. apply map_ext_in. intros e He.
-  apply join2_good; auto.
+  intros Hd Hp Ht. unfold dir_files. apply map_ext_in. intros e He.
+  rewrite dir_rel_walk by exact Hd. apply join2_good; auto.
 Qed.
 
-Theorem dir_files_naming_empty (t : tree) :
-  (forall e, In e t -> good_path (fst e)) -> dir_files t [] = map fst t.
+Theorem dir_files_naming_empty dir (t : tree) :
+  clean dir <> [47] ->
+  (forall e, In e t -> good_path (fst e)) -> dir_files dir t [] = map fst t.
 Proof.
-  intros Ht. unfold dir_files. apply map_ext_in. intros e He. apply join2_empty; auto.
+  intros Hd Ht. unfold dir_files. apply map_ext_in. intros e He.
+  rewrite dir_rel_walk by exact Hd. apply join2_empty; auto.
 Qed.
 
-Theorem dir_files_naming_both (t : tree) (prefix : str) :
+Theorem dir_files_naming_both (dir : str) (t : tree) (prefix : str) :
+  clean dir <> [47] ->
   (forall e, In e t -> good_path (fst e)) ->
-  (good_path prefix -> dir_files t prefix = map (fun e => prefix ++ 47 :: fst e) t) /\
-  dir_files t [] = map fst t.
+  (good_path prefix -> dir_files dir t prefix = map (fun e => prefix ++ 47 :: fst e) t) /\
+  dir_files dir t [] = map fst t.
 Proof.
-  intros Ht. split; [intros Hp; now apply dir_files_naming | now apply dir_files_naming_empty].
+  intros Hd Ht. split; [intros Hp; now apply dir_files_naming | now apply dir_files_naming_empty].
 Qed.
 
 Section DirProofs.
 Variable sha : str -> str.
 
 (* HashDir with a plain prefix is Hash1 over the renamed tree *)
-Theorem hash_dir_formula (t : tree) prefix :
+Theorem hash_dir_formula dir (t : tree) prefix :
+  dir <> [] -> clean dir <> [47] ->
   good_path prefix -> tree_wf t ->
-  hash_dir sha t prefix =
+  hash_dir sha dir t prefix =
   hash1 sha (map fst (map (rename prefix) t)) (tree_lookup (map (rename prefix) t)).
 Proof.
-  intros Hp [Hnd Hgood]. unfold hash_dir.
-  rewrite (dir_files_naming t prefix Hp Hgood).
+  intros Hne Hd Hp [Hnd Hgood]. unfold hash_dir.
+  assert (Hnil : is_nil dir = false) by (destruct dir; [congruence | reflexivity]).
+  rewrite (dir_files_naming dir t prefix Hd Hp Hgood).
   rewrite map_map. cbn [rename fst].
-  assert (Hesc : existsb (escapes prefix) (map (fun e => prefix ++ 47 :: fst e) t) = false).
+  assert (Hesc : existsb (escapes dir prefix) (map (fun e => prefix ++ 47 :: fst e) t) = false).
   { clear Hnd. induction t as [|e t IH]; cbn [map existsb]; [reflexivity|].
     rewrite IH by (intros e' He'; apply Hgood; now right). rewrite orb_false_r.
-    unfold escapes. rewrite trim_prefix_app, resolve_slash_good; [reflexivity|].
+    unfold escapes. rewrite trim_prefix_app, Hnil, resolve_slash_good; [reflexivity|].
     apply Hgood. now left. }
   rewrite Hesc. apply hash1_ext. intros name Hin.
   apply in_map_iff in Hin. destruct Hin as (e & <- & He).
@@ -244,29 +263,46 @@ Proof.
   rewrite trim_prefix_app, resolve_slash_good by (now apply Hgood). reflexivity.
 Qed.
 
-Theorem hash_dir_formula_empty (t : tree) :
-  tree_wf t -> hash_dir sha t [] = hash1 sha (map fst t) (tree_lookup t).
+Theorem hash_dir_formula_empty dir (t : tree) :
+  clean dir <> [47] ->
+  tree_wf t -> hash_dir sha dir t [] = hash1 sha (map fst t) (tree_lookup t).
 Proof.
-  intros [Hnd Hgood]. unfold hash_dir. rewrite (dir_files_naming_empty t Hgood).
-  assert (Hesc : existsb (escapes []) (map fst t) = false).
+  intros Hd [Hnd Hgood]. unfold hash_dir. rewrite (dir_files_naming_empty dir t Hd Hgood).
+  assert (Hesc : existsb (escapes dir []) (map fst t) = false).
   { clear Hnd. induction t as [|e t IH]; cbn [map existsb]; [reflexivity|].
     rewrite IH by (intros e' He'; apply Hgood; now right). rewrite orb_false_r.
     unfold escapes. rewrite trim_prefix_nil.
-    rewrite resolve_good; [reflexivity | apply Hgood; now left]. }
+    rewrite resolve_good by (apply Hgood; now left).
+    destruct (good_path_shape (fst e) (Hgood e (or_introl eq_refl))) as (c & r & -> & Hc).
+    rewrite orb_false_r. apply andb_false_iff. right.
+    destruct (Z.eqb_spec c 47) as [->|_]; [congruence|].
+    destruct c as [|q|q]; try reflexivity.
+    do 6 (destruct q as [q|q|]; try reflexivity). congruence. }
   rewrite Hesc. apply hash1_ext. intros name Hin.
   apply in_map_iff in Hin. destruct Hin as (e & <- & He).
   unfold dir_open. rewrite trim_prefix_nil.
   rewrite resolve_good by (now apply Hgood). reflexivity.
 Qed.
 
+(* the empty directory argument: DirFiles("", prefix) lists the current directory, but
+   HashDir("", prefix) opens "/rel" (filepath.Join("", "/rel")), outside the directory *)
+Theorem hash_dir_empty_dir_outside (e : str * option str) (t : tree) prefix :
+  good_path prefix -> tree_wf (e :: t) -> hash_dir sha [] (e :: t) prefix = Outside.
+Proof.
+  intros Hp [Hnd Hgood]. unfold hash_dir.
+  rewrite (dir_files_naming [] (e :: t) prefix) by (try exact Hp; try exact Hgood; vm_compute; discriminate).
+  cbn [map existsb]. unfold escapes at 1. rewrite trim_prefix_app. reflexivity.
+Qed.
+
 (* the archive z is, up to the order of its entries, the tree with every name prefixed
    by prefix/ : then hashing the archive and hashing the directory agree *)
-Theorem zip_dir_agree (z : zip) (t : tree) prefix :
+Theorem zip_dir_agree (z : zip) dir (t : tree) prefix :
+  dir <> [] -> clean dir <> [47] ->
   good_path prefix -> tree_wf t ->
   Permutation z (map (rename prefix) t) ->
-  hash_zip sha z = hash_dir sha t prefix.
+  hash_zip sha z = hash_dir sha dir t prefix.
 Proof.
-  intros Hp Hwf HP. rewrite (hash_dir_formula t prefix Hp Hwf).
+  intros Hne Hd Hp Hwf HP. rewrite (hash_dir_formula dir t prefix Hne Hd Hp Hwf).
   destruct Hwf as [Hnd Hgood].
   pose proof (NoDup_rename prefix t Hnd) as Hnd2.
   assert (Hnd1 : NoDup (map fst z)).
